@@ -250,6 +250,13 @@ def func3(object, name, value):
 FUNCS = [func0, func1, func2, func3]
 
 
+def pred0(x):
+    return x[0] < x[1]
+
+
+PREDS = [pred0]
+
+
 class _Holder:
     def meth(self):
         return None
@@ -610,6 +617,9 @@ def _build_with(t, ctx, cls):
         return T.Tuple(*[_inner(x, ctx) for x in t[1:]])
     if h == "BaseTuple":
         return T.BaseTuple(*[_inner(x, ctx) for x in t[1:]])
+    if h == "ValidatedTuple":
+        kw = {} if t[1] == "N" else {"fvalidate": PREDS[int(t[1])]}
+        return T.ValidatedTuple(*[_inner(x, ctx) for x in t[2:]], **kw)
     if h == "Instance":
         return (cls or T.Instance)(build_type(t[1], ctx), allow_none=t[2] == "1", adapt=ADAPT[int(t[3])])
     if h == "Type":
@@ -795,7 +805,7 @@ def cast_types(t, acc):
     elif h in ("Base", "Tuple", "BaseTuple", "Union", "CompoundH"):
         for x in t[1:]:
             cast_types(x, acc)
-    elif h == "Either":
+    elif h in ("Either", "ValidatedTuple"):
         for x in t[2:]:
             cast_types(x, acc)
     return acc
@@ -810,7 +820,7 @@ def regex_ids(t, acc):
     elif h in ("Base", "Tuple", "BaseTuple", "Union", "CompoundH"):
         for x in t[1:]:
             regex_ids(x, acc)
-    elif h == "Either":
+    elif h in ("Either", "ValidatedTuple"):
         for x in t[2:]:
             regex_ids(x, acc)
     return acc
@@ -907,7 +917,8 @@ def lattice():
         L.append("(f %s)" % F(x))
     L += ["(fs %s)" % F(1.0), "(fs nan)", "(fs %s)" % F(2.5)]
     L += ["(c 0 0)", "(c 4 0)", "(c 6 8)", "(c nan 0)", "(c 4 inf)", "(c 4 -0)", "(cs 4 8)"]
-    for s in ("", "a", "abc", "yes", "y", "ye", "no", "n", "yellow", "12", " 7 ", "1.5", "nan", "1+2j", "xxxxxx"):
+    for s in ("", "a", "abc", "abcd", "yes", "y", "ye", "no", "n", "yellow", "12", " 7 ", "1.5", "nan", "1+2j", "xxxxxx",
+              "AB", "ABCDEF"):
         L.append("(s %s)" % enc(s) if s else "(s)")
     L += ["(ss a)", "(ss yes)", "(ss y)", "(y)", "(y a)", "(y 12)"]
     L += ["(t)", "(t (i 1))", "(t (i 1) (i 2))", "(t (i 1) (f 8))", "(t (b 1) (i 2))", "(t (i 1) (s a))",
@@ -915,7 +926,7 @@ def lattice():
           "(t N N)", "(t (f nan) (i 1))", "(ts (i 1) (i 2))", "(ts (i 1) (f 8))", "(ts (i 1) (s a))", "(ts)",
           "(ts (b 1) (i 2))", "(t (i %d) (i 1))" % big, "(t (idx (exc ValueError)) (i 1))",
           "(t (i 1) (idx (exc ValueError)))", "(t (inst 2 (2) () 3) (bfn 0))", "(t (f 4) (i 1))",
-          "(t (f 2) (s yes))"]
+          "(t (f 2) (s yes))", "(t (idx (ret 3)) (i 4))", "(l (i 1) (f 10))", "(t (i 5) (f 8))", "(l (b 1) (i 7))"]
     L += ["(l)", "(l (i 1))", "(l (i 1) (i 2))", "(l (i 1) (s a))", "(l (s a))"]
     L += ["(nb 1)", "(nb 0)", "(ni 8 3)", "(ni 32 -1)", "(ni 64 2)", "(ni 108 255)", "(ni 64 %d)" % (2 ** 53 + 1),
           "(nf 16 6)", "(nf 32 2)", "(nf 32 nan)", "(nf 64 10)", "(nf 64 inf)", "(nf 64 -0)",
@@ -1036,6 +1047,16 @@ def single_traits():
             out.append("(Type %s %s)" % (c, an))
     out += ["(This 1)", "(This 0)", "(Callable 1)", "(Callable 0)", "(Base (Callable 1))"]
     out += ["(String 0 N N)", "(String 1 3 N)", "(String 0 N 0)", "(String 2 5 1)", "(String 0 2 N)", "(String 3 N N)"]
+    # every combination of {no minlen, minlen} x {no maxlen, maxlen} x {no regex, regex}: String._init picks
+    # one of four validators from exactly these three tests
+    for mn in ("0", "3"):
+        for mx in ("N", "4"):
+            for rx in ("N", "0"):
+                term = "(String %s %s %s)" % (mn, mx, rx)
+                if term not in out:
+                    out.append(term)
+    out += ["(ValidatedTuple N Int Float)", "(ValidatedTuple 0 Int Float)", "(ValidatedTuple 0 Int Int)",
+            "(ValidatedTuple N (Base Int) Str)", "(ValidatedTuple N CFloat (Tuple Int Int))"]
     out += ["(PrefixList yes no yellow)", "(PrefixMap (yes (i 1)) (no (i 0)) (yellow (i 2)))"]
     out += ["(Array N N 0)", "(Array 4 N 0)", "(Array 4 (3) 0)", "(Array 1 (N 3) 2)", "(Array 4 ((1 3)) 4)",
             "(Array N ((2 N) 3) 0)", "(Array 2 N 1)", "(Array 3 (3) 2)"]
